@@ -41,6 +41,10 @@ OPERATORS_MAP = {
     '<=': operator.le,
 }
 
+# Value and node comparison operators of XPath 2.0+: a comparison expression
+# admits a single operator, regardless of its family (general, value or node).
+OTHER_COMPARISON_SYMBOLS = frozenset(('eq', 'ne', 'lt', 'le', 'gt', 'ge', 'is', '<<', '>>'))
+
 register = XPath1Parser.register
 nullary = XPath1Parser.nullary
 infix = XPath1Parser.infix
@@ -75,7 +79,7 @@ def evaluate__and_operator(self: XPathToken, context: ta.ContextType = None) -> 
 @method('<=', bp=30)
 @method('>=', bp=30)
 def led__comparison_operators(self: XPathToken, left: XPathToken) -> XPathToken:
-    if left.symbol in OPERATORS_MAP:
+    if left.symbol in OPERATORS_MAP or left.symbol in OTHER_COMPARISON_SYMBOLS:
         raise self.wrong_syntax()
     self[:] = left, self.parser.expression(rbp=30)
     return self
